@@ -6,7 +6,7 @@
         body: junk | create <peer> | created <ident> <ok> <next> | extended <ident> <ok> <next>
               | extend <reqId> <toId> <toPeer> <candOk> | ping | pong | data <sent> | testreq | other
         next: - | <cands>,<ident>
-   <label> <time> destroy <id> <peer>
+   <label> <time> destroy <id> <peer> <forwarded: reason != 0>
    <label> <time> rmc <id> <destroy> | rmr <id> <destroy> | rmx <id> <destroy> <removeNow>
    <label> <time> retry <id> <peer> <next>
    <label> <time> outside <id> | traffic <tbl> <id> <amount>
@@ -47,7 +47,7 @@ def body? : List String → Option Body
 def ev? : List String → Option Ev
   | ["mk", i, g, p, c, d] => do pure (.mkCircuit (← i.toNat?) (← g.toNat?) (← p.toNat?) (← c.toNat?) (← d.toNat?))
   | "cell" :: i :: e :: p :: ok :: b => do pure (.cell (← i.toNat?) (← bool? e) (← bool? p) (← bool? ok) (← body? b))
-  | ["destroy", i, p] => do pure (.destroy (← i.toNat?) (← p.toNat?))
+  | ["destroy", i, p, f] => do pure (.destroy (← i.toNat?) (← p.toNat?) (← bool? f))
   | ["rmc", i, d] => do pure (.rmCircuit (← i.toNat?) (← bool? d))
   | ["rmr", i, d] => do pure (.rmRelay (← i.toNat?) (← bool? d))
   | ["rmx", i, d, r] => do pure (.rmExit (← i.toNat?) (← bool? d) (← bool? r))
@@ -74,10 +74,10 @@ def showC (p : Nat × Entry) : String :=
   let r := match e.retry with
     | some r => if e.waiting then "-" else toString r.tries
     | none => "-"
-  s!"{p.1}:{b01 e.closing}:{e.hops}:{r}"
+  s!"{p.1}:{b01 e.closing}:{e.hops}:{r}@{e.born}"
 
-def showR (p : Nat × Entry) : String := s!"{p.1}>{p.2.other}"
-def showX (p : Nat × Entry) : String := s!"{p.1}:{b01 p.2.opened}"
+def showR (p : Nat × Entry) : String := s!"{p.1}>{p.2.other}@{p.2.born}"
+def showX (p : Nat × Entry) : String := s!"{p.1}:{b01 p.2.opened}@{p.2.born}"
 
 def countDup (l : List Nat) : List (Nat × Nat) :=
   let s := sortBy (fun a b => a < b) l
@@ -92,9 +92,14 @@ def showOuts (o : List Out) : String :=
   let fs := countDup (o.filterMap fun x => match x with | .fwd i _ => some i | _ => none)
   let ps := countDup (o.filterMap fun x => match x with | .drop i => some i | _ => none)
   let js := sortBy (fun a b => a < b) (o.filterMap fun x => match x with | .refused i => some i | _ => none)
+  -- answers this node originated: created (3), extended (5), pong (7), as kind*1e10+id
+  let ss := countDup (o.filterMap fun x => match x with
+    | .cell _ i k => if k == 3 || k == 5 || k == 7 then some (k * 10000000000 + i) else none
+    | _ => none)
   let pair (sep : String) (p : Nat × Nat) : String := s!"{p.1}{sep}{p.2}"
   "D[" ++ ",".intercalate (ds.map (pair ":")) ++ "] F[" ++ ",".intercalate (fs.map (pair "*")) ++
-  "] P[" ++ ",".intercalate (ps.map (pair "*")) ++ "] J[" ++ ",".intercalate (js.map toString) ++ "]"
+  "] P[" ++ ",".intercalate (ps.map (pair "*")) ++ "] J[" ++ ",".intercalate (js.map toString) ++ "] S[" ++
+  ",".intercalate (ss.map (fun p => s!"{p.1 / 10000000000}:{p.1 % 10000000000}*{p.2}")) ++ "]"
 
 def showNode (s : Node) : String :=
   "C[" ++ ",".intercalate ((live s.circuits).map showC) ++ "] R[" ++ ",".intercalate ((live s.relays).map showR) ++
